@@ -590,6 +590,10 @@ impl World {
         };
         match res {
             Ok(r) => {
+                // has_ready() is a library call too; the explorer evaluates it in every state
+                if !self.has_ready_guarded(i, ctx) {
+                    return None;
+                }
                 let post = snap_of(&self.nodes[i].live.as_ref().unwrap().rn);
                 self.after_call(i, &kind, &pre, &post, &pre_flow, ctx);
                 Some(r)
@@ -618,6 +622,21 @@ impl World {
                 };
                 self.panic_violation(i, &what, &msg, &loc, ctx);
                 None
+            }
+        }
+    }
+
+    /// Evaluates has_ready() under the panic guard; false = it panicked (a C20 violation).
+    fn has_ready_guarded(&mut self, i: usize, ctx: &mut Ctx) -> bool {
+        let r = {
+            let rn = &self.nodes[i].live.as_ref().unwrap().rn;
+            guarded(|| rn.has_ready())
+        };
+        match r {
+            Ok(_) => true,
+            Err((msg, loc)) => {
+                self.panic_violation(i, "has_ready", &msg, &loc, ctx);
+                false
             }
         }
     }
@@ -1595,22 +1614,23 @@ impl World {
         } else if had_snapshot {
             self.nodes[i].live.as_mut().unwrap().snap_ack_pending = true;
         }
-        self.enable_unp(i);
-        true
+        self.enable_unp(i, ctx)
     }
 
     /// Apply-before-persist is a run-time switch: Raft::new (through become_follower) and every
     /// step-down reset it to 0, whatever Config says. The application turns it on when a Ready
     /// round has shown it that the node leads (what the TODO in become_follower describes).
-    fn enable_unp(&mut self, i: usize) {
+    fn enable_unp(&mut self, i: usize, ctx: &mut Ctx) -> bool {
         let limit = self.cfg(i).max_apply_unpersisted;
         if limit == 0 {
-            return;
+            return true;
         }
         let l = self.nodes[i].live.as_mut().unwrap();
         if l.rn.raft.state == StateRole::Leader && l.rn.raft.raft_log.max_apply_unpersisted_log_limit == 0 {
             l.rn.raft.set_max_apply_unpersisted_log_limit(limit);
+            return self.has_ready_guarded(i, ctx);
         }
+        true
     }
 
     fn write_checked(&mut self, i: usize, number: u64, op: WriteOp, ctx: &mut Ctx) {
@@ -1727,8 +1747,7 @@ impl World {
         } else if had_snapshot {
             self.nodes[i].live.as_mut().unwrap().snap_ack_pending = true;
         }
-        self.enable_unp(i);
-        true
+        self.enable_unp(i, ctx)
     }
 
     /// async persistence: fsync the first k outstanding Readies, notify, then release.
